@@ -152,8 +152,14 @@ def run_worker_shard(binpath, shard, out, extra_env=None, per_case_timeout=60):
                 kind = classify_crash(rc, stderr)
                 cid = inflight["case"]
                 o.write(json.dumps(inflight) + "\n")
-                o.write(json.dumps({"ev": "end", "case": cid, "result": kind, "msg": stderr[-300:].strip(), "len": inflight.get("len", 0),
-                                    "peak_kib": 0, "maxreq_kib": 0, "refused_kib": 0, "hook_chunks": 0}) + "\n")
+                m = re.findall(r"ASEVER-REFUSED (\d+)", stderr)
+                refused = (int(m[-1]) + 1023) // 1024 if m else 0
+                fr = re.findall(r"\d+: <?(asefile::[A-Za-z0-9_:<>]+)", stderr)
+                site = fr[0] if fr else ""
+                what = "allocation refused/failed" if (m or "memory allocation of" in stderr) else ("stack overflow" if kind == "stack_overflow" else kind)
+                short = f"{what} @ {site}"
+                o.write(json.dumps({"ev": "end", "case": cid, "result": kind, "msg": short, "len": inflight.get("len", 0),
+                                    "peak_kib": refused, "maxreq_kib": refused, "refused_kib": refused, "hook_chunks": 0}) + "\n")
                 o.write(json.dumps({"ev": "done", "case": cid}) + "\n")
                 crashes.append((cid, kind, stderr[-300:].strip()))
         os.remove(part)
@@ -310,13 +316,16 @@ def extract_json_prints(path_or_text, tag, is_path=True):
 
 # ------------------------------------------------------------------------------------------
 def load_known():
-    path = f"{ROOT}/known_findings.jsonl"
+    """known_findings.txt: 'known: property=<id> signature=<sig> <what>' lines are suppressed (KNOWN-FINDING),
+    'fixed: ...' lines are documentation only."""
+    path = f"{ROOT}/known_findings.txt"
     out = []
     if os.path.exists(path):
         for l in open(path):
             l = l.strip()
-            if l and not l.startswith("#"):
-                out.append(json.loads(l))
+            m = re.match(r"known: property=(\S+) signature=(\S+) (.*)", l)
+            if m:
+                out.append({"status": "known", "property": m.group(1), "signature": m.group(2), "what": m.group(3)})
     return out
 
 
@@ -355,15 +364,18 @@ class Report:
                 if signature not in [h[0] for h in self.known_hits]:
                     self.known_hits.append((signature, k.get("what", text)))
                 return
-        n = len(self.violations)
-        if n >= 20:
-            self.violations.append((signature, text, None))
+        self.nviol = getattr(self, "nviol", 0) + 1
+        for v in self.violations:
+            if v[0] == signature:
+                v[3][0] += 1
+                return
+        if len(self.violations) >= 60:
             return
         h = hashlib.sha1((signature + text).encode()).hexdigest()[:10]
         path = f"{ROOT}/replays/{self.pid}/{h}.json"
         with open(path, "w") as f:
             json.dump(replay_doc, f)
-        self.violations.append((signature, text, path))
+        self.violations.append((signature, text, path, [1]))
 
     def finish(self, rule, trusted=None, exhaustive=False, explanation=None):
         wall = time.time() - self.t0
@@ -377,7 +389,7 @@ class Report:
         if not cov["samples"]:
             cov["samples"] = ["(no sample recorded)"]
         ev = {"property_id": self.pid, "tier": self.tier, "seed": self.seed, "level": self.level, "coverage": cov,
-              "assumptions": self.assumptions, "wall_s": round(wall, 2), "violations": len(self.violations)}
+              "assumptions": self.assumptions, "wall_s": round(wall, 2), "violations": getattr(self, "nviol", 0)}
         os.makedirs(f"{ROOT}/evidence", exist_ok=True)
         with open(f"{ROOT}/evidence/{self.pid}.json", "w") as f:
             json.dump(ev, f, indent=1)
@@ -389,12 +401,9 @@ class Report:
             if not self.violations:
                 return 2
         if self.violations:
-            seen = set()
-            for sig, text, path in self.violations:
-                if path and path not in seen:
-                    seen.add(path)
-                    print(f"VIOLATION property={self.pid} replay={path}")
-                    print(f"  {sig} :: {text[:600]}")
+            for sig, text, path, cnt in self.violations:
+                print(f"VIOLATION property={self.pid} replay={path}")
+                print(f"  [{cnt[0]} cases] {sig} :: {text[:500]}")
             return 1
         print(f"OK property={self.pid} tier={self.tier} states={cov['states']} transitions={cov['transitions']} "
               f"impl_cases={cov['traces_validated_against_impl']} wall={wall:.1f}s")
